@@ -156,7 +156,7 @@ def unsplit_result(
     return f"{url}#{fragment}" if fragment else url
 
 
-@lru_cache  # match the same size as urlsplit
+@lru_cache(typed=True)  # match the same size as urlsplit
 def make_netloc(
     user: Union[str, None],
     password: Union[str, None],
